@@ -328,6 +328,10 @@ func tokenExprUnaryToProtoExprUnary(op datalog.UnaryOp) (*pb.OpUnary, error) {
 
 func protoExprUnaryToTokenExprUnary(op *pb.OpUnary) (datalog.UnaryOpFunc, error) {
 	var unaryOp datalog.UnaryOpFunc
+	// required fields of a message inside a oneof are not checked by proto.Unmarshal
+	if op == nil || op.Kind == nil {
+		return nil, errors.New("biscuit: proto OpUnary has no kind")
+	}
 	switch *op.Kind {
 	case pb.OpUnary_Negate:
 		unaryOp = datalog.Negate{}
@@ -386,6 +390,10 @@ func tokenExprBinaryToProtoExprBinary(op datalog.BinaryOp) (*pb.OpBinary, error)
 
 func protoExprBinaryToTokenExprBinary(op *pb.OpBinary) (datalog.BinaryOpFunc, error) {
 	var binaryOp datalog.BinaryOpFunc
+	// required fields of a message inside a oneof are not checked by proto.Unmarshal
+	if op == nil || op.Kind == nil {
+		return nil, errors.New("biscuit: proto OpBinary has no kind")
+	}
 	switch *op.Kind {
 	case pb.OpBinary_LessThan:
 		binaryOp = datalog.LessThan{}
